@@ -175,7 +175,16 @@ def handleKernel (j : Json) : Except String Verdict := do
   let stt := nestStats D nest
   let anyFlush := implFiles.any (fun e => e.2.any (fun f => match f.2 with
     | some ls => decide (ls.length ≥ e.1) | none => false))
+  let stagingRows := fun (ty : String) => (modelFiles.head?.map (fun e => e.2.2.any (fun f =>
+    f.1.2 == ty && (match keyLevel levels f.1.1, f.2 with
+      | some i, some ls => (match levels[i]? with
+        | some lv => lv.pop && ls.any (fun l => match l with
+            | .dat v => decide (lv.insertPos ≤ v.getLast?.getD 0) | .hdr _ => false)
+        | none => false)
+      | _, _ => false)))).getD false
   let tags := dedup (
+    (if stagingRows "populate_write_0" then ["inserting:staging-write"] else []) ++
+    (if stagingRows "populate_read_0" then ["inserting:move-from-staging"] else []) ++
     levels.map (fun lv => (if lv.pop then "pop+" else "") ++ srcTag lv.src) ++
     [s!"depth{D}"] ++
     (if stt.saved > stt.bumps then ["project-use"] else []) ++
@@ -258,7 +267,8 @@ def handleApi (j : Json) : Except String Verdict := do
   let anyFault := results.any (fun (_, st, _, _, err) => st.fault || err.isSome)
   let restarted := results.any (fun (_, st, _, _, _) => st.restarted)
   let firstFiles := (results.head?.map (fun (_, _, files, _, _) => files)).getD []
-  let flushFails := if anyFault || restarted then [] else
+  let ended := decide (evs.getLast? = some Ev.endCollect)
+  let flushFails := if anyFault || restarted || !ended then [] else
     results.tail.flatMap (fun (n, _, files, _, _) => (files.zip firstFiles).filterMap (fun f =>
       if f.1.2 = f.2.2 then none else some s!"flush@{n}:{keyStr f.1.1}"))
   let both := keys.filter (fun k => evs.contains (.trace k.1 k.2 true) && evs.contains (.trace k.1 k.2 false))
